@@ -16,7 +16,7 @@ EXTENDS MusicXMLStream, NoteArray, Json, IOUtils, TLCExt, SequencesExt
 
 Batch == TLCEval(JsonDeserialize(IOEnv.TRACE_FILE))
 VARIABLES tid, l
-tvars == <<pos, divs, mstart, maxpos, lastOn, open, notes, measures, attrs, bad, tid, l>>
+tvars == <<pos, divs, mstart, maxpos, lastOn, open, notes, measures, attrs, ropen, rclosed, bad, tid, l>>
 Events == Batch[tid].events
 Ev == Events[l]
 TInit == SInit /\ tid \in 1..Len(Batch) /\ l = 1
@@ -29,6 +29,7 @@ TNext == /\ l <= Len(Events)
             \/ (Ev.ev = "backup" /\ Backup(Ev))
             \/ (Ev.ev = "forward" /\ Forward(Ev))
             \/ (Ev.ev = "attr" /\ Attr(Ev))
+            \/ (Ev.ev = "direction" /\ Direction(Ev))
 TSpec == TInit /\ [][TNext]_tvars
 
 (* ---- the part that was saved ---- *)
@@ -53,6 +54,13 @@ FinalClauses ==
        at(kind) == {<<attrs[i].at, attrs[i].a, attrs[i].b, attrs[i].c>> : i \in {j \in 1..Len(attrs) : attrs[j].kind = kind}}
    IN [format_rules     |-> bad = {},
        open_ties        |-> Len(open) = 0,
+       open_ranges      |-> Len(ropen) = 0,
+       slurs            |-> {<<rclosed[i].fromid, rclosed[i].toid>> : i \in {j \in 1..Len(rclosed) : rclosed[j].kind = "slur"}}
+                              = {<<x[1], x[2]>> : x \in ToSet(Batch[tid].part.slurs)},
+       tuplets          |-> {<<rclosed[i].fromid, rclosed[i].toid>> : i \in {j \in 1..Len(rclosed) : rclosed[j].kind = "tuplet"}}
+                              = {<<x[1], x[2]>> : x \in ToSet(Batch[tid].part.tuplets)},
+       spans            |-> {<<rclosed[i].kind, rclosed[i].from, rclosed[i].to>> : i \in {j \in 1..Len(rclosed) : rclosed[j].kind \in {"wedge", "dashes", "pedal"}}}
+                              = {<<x[1], QOf(x[2]), QOf(x[3])>> : x \in ToSet(Batch[tid].part.spans)},
        sounding_notes   |-> Sounding = expSounding,
        written_notes    |-> gotWritten = expWritten,
        one_element_per_note |-> Len(notes) = Len(PNotes),
